@@ -62,18 +62,47 @@ def swap01 {α : Type} : List α → List α
 
 /-! ## Haralick features: the textbook functions of the normalised matrix (Float) -/
 
-def fsum (xs : List Float) : Float := xs.foldl (· + ·) 0.0
+/-- left-to-right sum starting from `zero` (generic: run at `Float`, proved over ordered fields) -/
+def gsum {α : Type} [Add α] (zero : α) (xs : List α) : α := xs.foldl (· + ·) zero
+
+def fsum (xs : List Float) : Float := gsum 0.0 xs
 def entropy (xs : List Float) : Float :=
   -(fsum (xs.map fun p => if p == 0.0 then 0.0 else p * Float.log2 p))
+
+/-- `p = cmat / cmat.sum()`: the normalised co-occurrence matrix (row-major), generic in the scalar type -/
+def normMat {α : Type} [Div α] (cast : Nat → α) (c : List Nat) : Array α :=
+  (c.map fun v => cast v / cast (c.foldl (· + ·) 0)).toArray
+
+/-- entry `(i, j)` of a row-major `m × m` matrix -/
+def matAt {α : Type} (zero : α) (m : Nat) (p : Array α) (i j : Nat) : α := p.getD (i * m + j) zero
+
+/-- all index pairs in row-major order -/
+def allPairs (m : Nat) : List (Nat × Nat) := (List.range m).flatMap fun i => (List.range m).map fun j => (i, j)
+
+def absDiff (i j : Nat) : Nat := if i ≥ j then i - j else j - i
+
+/-- `p_{x+y}(k) = Σ_{i+j=k} p(i,j)`, `k = 0 … 2m−1`, as the code folds it (one term per row) -/
+def pplusG {α : Type} [Add α] (zero : α) (m : Nat) (P : Nat → Nat → α) : List α :=
+  (List.range (2 * m)).map fun k =>
+    gsum zero ((List.range m).map fun i => if i ≤ k ∧ k - i < m then P i (k - i) else zero)
+
+/-- `p_{x−y}(k) = Σ_{|i−j|=k} p(i,j)`, `k = 0 … m−1` -/
+def pminusG {α : Type} [Add α] (zero : α) (m : Nat) (P : Nat → Nat → α) : List α :=
+  (List.range m).map fun k =>
+    gsum zero ((List.range m).flatMap fun i => (List.range m).filterMap fun j =>
+      if absDiff i j == k then some (P i j) else none)
+
+/-- angular second moment `Σ p(i,j)²` -/
+def asmG {α : Type} [Add α] [Mul α] (zero : α) (m : Nat) (P : Nat → Nat → α) : α :=
+  gsum zero ((allPairs m).map fun (i, j) => P i j * P i j)
 
 /-- features 1..13 (Haralick 1973, with the corrected sum variance `Σ (k − f6)² p_{x+y}(k)`;
     f10 = variance of the *values* of `p_{x−y}` (mahotas' default interpretation)).
     `c` = integer matrix (row-major, `m×m`, already symmetrised / zero-stripped). -/
 def haralick13 (m : Nat) (c : List Nat) : List Float :=
-  let T := Float.ofNat (c.foldl (· + ·) 0)
-  let p := (c.map fun v => Float.ofNat v / T).toArray
+  let p := normMat Float.ofNat c
   let idx := List.range m
-  let P := fun (i j : Nat) => p.getD (i * m + j) 0.0
+  let P := matAt 0.0 m p
   let fl := fun (n : Nat) => Float.ofNat n
   let px := idx.map fun j => fsum (idx.map fun i => P i j)      -- p.sum(0)
   let py := idx.map fun i => fsum (idx.map fun j => P i j)      -- p.sum(1)
@@ -81,13 +110,10 @@ def haralick13 (m : Nat) (c : List Nat) : List Float :=
   let uy := fsum (idx.map fun k => py.getD k 0.0 * fl k)
   let vx := fsum (idx.map fun k => px.getD k 0.0 * fl (k * k)) - ux * ux
   let vy := fsum (idx.map fun k => py.getD k 0.0 * fl (k * k)) - uy * uy
-  let pplus := (List.range (2 * m)).map fun k =>
-    fsum (idx.map fun i => if i ≤ k ∧ k - i < m then P i (k - i) else 0.0)
-  let pminus := idx.map fun k =>
-    fsum (idx.flatMap fun i => idx.filterMap fun j =>
-      if (if i ≥ j then i - j else j - i) == k then some (P i j) else none)
-  let all := idx.flatMap fun i => idx.map fun j => (i, j)
-  let f1 := fsum (all.map fun (i, j) => P i j * P i j)
+  let pplus := pplusG 0.0 m P
+  let pminus := pminusG 0.0 m P
+  let all := allPairs m
+  let f1 := asmG 0.0 m P
   let f2 := fsum (idx.map fun k => fl (k * k) * pminus.getD k 0.0)
   let f3 := (fsum (all.map fun (i, j) => fl (i * j) * P i j) - ux * uy) / (Float.sqrt vx * Float.sqrt vy)
   let f4 := vx
@@ -204,6 +230,18 @@ def momentsSpec {α : Type} [Add α] [Sub α] [Mul α] [OfNat α 0] [OfNat α 1]
       dotFrom (fun j => powN (cast i - c0) p0 * powN (cast j - c1) p1) 0 r + rowsFrom (i + 1) rs
   rowsFrom 0 rows
 
+/-! ## Zernike: selection and normalisation of the pixel weights (`zernike.py`) -/
+
+/-- `k = (Dn <= 1.) & (P > 0); frac_center = P[k] / P[k].sum()`: the pixels inside the unit disc with a
+    positive value, divided by their sum; `inDisc` is the mask `Dn <= 1` in C order. Generic in the
+    scalar type: run at `Float`, proved over ordered fields. (`np.sum` adds pairwise, the model left
+    to right: compared at 1e-12, never bit for bit.) -/
+def zernikeFrac {α : Type} [Add α] [Div α] [LT α] [DecidableLT α] (zero : α) (inDisc : List Bool)
+    (P : List α) : List α :=
+  let sel := ((inDisc.zip P).filter fun dv => dv.1 && decide (zero < dv.2)).map (·.2)
+  let tot := gsum zero sel
+  sel.map (· / tot)
+
 /-! ## driver -/
 
 def chunk {α : Type} (w : Nat) (xs : List α) : List (List α) :=
@@ -261,6 +299,9 @@ def handle (a : Args) : String :=
     let p0 := a.nat "p0"; let p1 := a.nat "p1"
     let c0 := a.int "c0"; let c1 := a.int "c1"
     s!"model={moments (fun n => (n : Int)) rows p0 p1 c0 c1} spec={momentsSpec (fun n => (n : Int)) rows p0 p1 c0 c1}"
+  | "zfrac" =>
+    let disc := (a.nats "disc").map (· != 0)
+    s!"frac={showFloats (zernikeFrac 0.0 disc (a.floats "data"))}"
   | "tables" =>
     s!"d2={showInts deltas2d.flatten} d3={showInts deltas3d.flatten} fact={showNats factorialTable}"
   | k => s!"error=unknown-kind-{k}"
